@@ -252,6 +252,17 @@ def feature_set(usize=3):
        {'lhs': 'X', 'nodes': ['T', 'T'], 'edges': [{'label': 'b', 'att': [0, 1]}], 'ext': [0]}])
     g({'S': []}, {'a': ['T'], 'b': ['T'], 'c': ['T']},
       [{'lhs': 'S', 'nodes': ['T', 'T', 'U'], 'edges': [{'label': 'a', 'att': [0]}, {'label': 'b', 'att': [0]}, {'label': 'c', 'att': [0]}], 'ext': []}])
+    # internal nodes whose order of first appearance depends on the order in which edges are visited
+    g({'S': [], 'X': ['U']}, {'f': ['T', 'T'], 'g': ['T', 'U'], 'h': ['U']},
+      [{'lhs': 'S', 'nodes': ['T', 'T', 'U'], 'edges': [{'label': 'f', 'att': [0, 1]}, {'label': 'X', 'att': [2]}, {'label': 'g', 'att': [1, 2]}], 'ext': []},
+       {'lhs': 'X', 'nodes': ['U'], 'edges': [{'label': 'h', 'att': [0]}], 'ext': [0]}])
+    g({'S': ['T'], 'X': ['T', 'U']}, {'f': ['T', 'U'], 'g': ['U'], 'h': ['T', 'U']},
+      [{'lhs': 'S', 'nodes': ['T', 'U', 'T'], 'edges': [{'label': 'g', 'att': [1]}, {'label': 'X', 'att': [2, 1]}, {'label': 'f', 'att': [0, 1]}], 'ext': [0]},
+       {'lhs': 'X', 'nodes': ['T', 'U'], 'edges': [{'label': 'h', 'att': [0, 1]}], 'ext': [0, 1]}])
+    g({'S': [], 'X': ['T'], 'Y': ['U']}, {'f': ['T', 'U'], 'a': ['T'], 'b': ['U']},
+      [{'lhs': 'S', 'nodes': ['U', 'T'], 'edges': [{'label': 'Y', 'att': [0]}, {'label': 'f', 'att': [1, 0]}, {'label': 'X', 'att': [1]}], 'ext': []},
+       {'lhs': 'X', 'nodes': ['T'], 'edges': [{'label': 'a', 'att': [0]}], 'ext': [0]},
+       {'lhs': 'Y', 'nodes': ['U'], 'edges': [{'label': 'b', 'att': [0]}], 'ext': [0]}])
     return S
 
 
